@@ -300,7 +300,7 @@ class C08(Check):
             if m is not None and m != got:
                 ctx.disagree('sheet edits', {'ops': ops}, got, m)
             for v in viol:
-                ctx.violate(v['clause'], {'kind': 'edits', 'ops': ops}, v['detail'])
+                ctx.violate(v['clause'], {'kind': 'edits', 'ops': ops}, v['detail'], known=v.get('known'))
 
     # == D: escapecss / unicodesub =====================================================================
     def part_d(self, ctx, cssutils):
